@@ -44,6 +44,10 @@ HOSTILE = [
     ("f({{x}})", "'{{x}}'", "y = f(a)\n", 0),
     ("f({{x}})", "g({{x}})", "y = f('ü→') + f(1)  # é\nz = 'x'; w = f(2)\n", 0),
     ("while {{c}}:\n    {{...+}}", "loop()", "while a:\n    b\n    c\nelse:\n    d\nwhile e:\n    f\n", 0),
+    # bindings whose text contains backslashes, braces, dollar signs, group references: instantiation must paste them verbatim
+    ("f({{x}})", "g({{x}})", "y = f('a\\nb')\nz = f('c\\\\d')\nw = f(r'\\d+\\1\\g<0>')\n", 0),
+    ("f({{x}})", "g({{x}}, {{x}})", "y = f('\\t$1 \\\\ {0} %s')\n", 0),
+    ("{{a}} = {{b}}", "{{a}} = wrap({{b}})", "pattern = '\\w+\\s*'\nother = b'\\x00\\\\'\n", 0),
     # a generator expression that shares its parentheses with the call it is the only argument of
     ("({{a}} for {{a}} in {{b}})", "list({{b}})", "s = sum(x for x in y)\n", 0),
     ("({{a}} for {{a}} in {{b}})", "{{b}}", "def f(y):\n    return any(x for x in y)\n", 0),
